@@ -605,7 +605,9 @@ func (e stakingCustomPrecompiledContractRoRewardOf) Execute(_ corevm.ContractRef
 		return nil, err
 	}
 
-	resReward, err := distkeeper.NewQuerier(dk).DelegationRewards(ctx, &disttypes.QueryDelegationRewardsRequest{
+	// the distribution query closes the validator's reward period, run it on a branch that is discarded
+	queryCtx, _ := ctx.CacheContext()
+	resReward, err := distkeeper.NewQuerier(dk).DelegationRewards(queryCtx, &disttypes.QueryDelegationRewardsRequest{
 		DelegatorAddress: sdk.AccAddress(delegatorAddr.Bytes()).String(),
 		ValidatorAddress: valAddrStr,
 	})
@@ -663,7 +665,9 @@ func (e stakingCustomPrecompiledContractRoRewardsOf) Execute(_ corevm.ContractRe
 }
 
 func (e stakingCustomPrecompiledContractRoRewardsOf) getTotalRewards(ctx sdk.Context, addr common.Address, bondDenom string) (sdkmath.Int, error) {
-	resRewards, err := distkeeper.NewQuerier(e.contract.keeper.distKeeper).DelegationTotalRewards(ctx, &disttypes.QueryDelegationTotalRewardsRequest{
+	// the distribution query closes the validators' reward periods, run it on a branch that is discarded
+	queryCtx, _ := ctx.CacheContext()
+	resRewards, err := distkeeper.NewQuerier(e.contract.keeper.distKeeper).DelegationTotalRewards(queryCtx, &disttypes.QueryDelegationTotalRewardsRequest{
 		DelegatorAddress: sdk.AccAddress(addr.Bytes()).String(),
 	})
 	if err != nil {
